@@ -1,6 +1,11 @@
 """C06 - traits that only add auxiliary predicates keep all source atoms, one-to-one"""
 from __future__ import annotations
 
+import corr_dependency
+import corr_duplication
+import corr_minmax
+import corr_sumagg
+import corr_symmetry
 import semcheck
 import tgen
 import semprop
@@ -22,10 +27,20 @@ EXTRA = [
 ]
 
 
+def _corr(mod):
+    def f(rng, quick):
+        return mod.run(rng, 25 if quick else 1500, corpus_limit=25 if quick else None)
+    return f
+
+
+CORR = [("dependency", _corr(corr_dependency)), ("sumagg", _corr(corr_sumagg)), ("minmax", _corr(corr_minmax)),
+        ("symmetry", _corr(corr_symmetry)), ("duplication", _corr(corr_duplication))]
+
+
 def run(ctx) -> int:
     seven = semcheck.flags_only(*SEVEN)
     rnd = [semcheck.flags_only(*[t for t in SEVEN if ctx.rng.random() < 0.5]) for _ in range(2 if ctx.quick() else 10)]
-    return _generic.run_semantic(ctx, MODULE, LEVEL, RULE, [seven] + rnd, "voc", None, EXTRA, (50, 500), (30, 1500),
+    return _generic.run_semantic(ctx, MODULE, LEVEL, RULE, [seven] + rnd, "voc", None, EXTRA, (50, 500), (30, 1500), corr=CORR,
                                  n_inst=4, generators=list(tgen.GENERATORS.values()), outp_choices=("auto",), one_to_one=True,
                                  assumptions=("M4's converse (every stable model of the extension is the least-fixpoint extension) is not proved",))
 
